@@ -325,6 +325,7 @@ func runC20(c *kit.Ctx) {
 	decodeErrorsKeepTheConnection(c)
 	clientDownOnlyWhenDead(c, hre, est)
 	deadConnectionIsTheFailedOne(c)
+	closedErrorOnlyWhenClosed(c)
 
 	// ---- R4 -----------------------------------------------------------------
 	c.StartRule("R4", "regions get their connection from the cache", 5)
@@ -369,6 +370,11 @@ func runC20(c *kit.Ctx) {
 			c.Check(ok, fn, "set-client", s.Pos(), "connection attached in establishRegion comes from clientRegionCache.put (or the tabled admin factory call)",
 				"a connection that did not come out of the cache is attached to a region")
 		}
+	}
+
+	// ---- R5 -----------------------------------------------------------------
+	if !c.Frozen {
+		embed(c, "R5", "a healthy, idle connection is never declared dead, so its server is not dialled a second time (the read-deadline rules of C18, run as one rule here)", 40, runC18)
 	}
 }
 
